@@ -110,3 +110,7 @@ def run(chk, st, tier):
     chk.coverage["explanation"] = "see coq/props/C01.v for what is proved about the model; aliasing clauses (mutation after Add, stability of scanned records) are exercised on the implementation only."
     chk.assumptions += ["codec contract: decompress (compress x) = x for snappy/gzip (Section hypothesis; the driver binds the real codecs through work/bin/codec)",
                         "the per-shape shredding/assembly code synthesised by parquetgen is replaced in the model by the reference Dremel functions (validated per shape by C03/C05)"]
+
+
+def replay(chk, st, data):
+    Fm.replay_workload(chk, data, [oracle], mutate=True, validate_level=0)
